@@ -29,7 +29,9 @@ MIN_NONTRIVIAL = {'quick': 120, 'thorough': 2000}
 NPROC = {'quick': 4, 'thorough': 12}
 
 STARTS = [(2019365, 220000), (2020059, 230000), (2019059, 233000), (2001001, 0), (2020366, 180000), (2019120, 120000),
-          (1999365, 230000), (2000060, 233000)]
+          (1999365, 230000), (2000060, 233000),
+          # the end of century years that are no leap years
+          (2100365, 180000), (1900364, 120000)]
 
 
 def _win(rng, L):
@@ -64,6 +66,10 @@ def gen(rng, tier):
         dl = dict(TSTEP=src['nt'], LAY=src['nl'], ROW=src['nr'], COL=src['nc'])
         ds = rng.sample(sorted(dl), rng.randint(1, 3))
         src['notflag'] = rng.random() < 0.2      # the time axis lives in SDATE / STIME / TSTEP only: no TFLAG variable yet
+        if rng.random() < 0.25:
+            src['latlon'] = rng.choice([175., 177.5, 0., 180.])     # degrees east of the first column's western edge
+            if src['latlon'] == 0.:
+                src['nc'] = 4
         if not src['notflag'] and rng.random() < 0.3:
             src['tflagfirst'] = True            # TFLAG is the first variable (the layout of IOAPI files on disk)
             src['nv'] = 2
@@ -73,6 +79,11 @@ def gen(rng, tier):
             # a variable was added in place since the flags were written (TFLAG still has the old VAR length); judged by the
             # independent oracle, the model is not asked
             out[-1]['precreate'] = True
+    # on every run: a file described by its header only (the window's flags are generated) that runs over the end of 2100 / 1900
+    for sd, ts in ((2100364, 240000), (1900365, 60000)):
+        src = dict(kind='arrays', nt=5, nl=rng.randint(1, 2), nr=rng.randint(1, 2), nc=rng.randint(1, 2), nv=1, sdate=sd, stime=0,
+                   tstep=ts, lv=sorted(rng.sample(range(0, 65), 5), reverse=True), withcf=False, notflag=True)
+        out.append(dict(src=src, recipes=[], ops=[['slice', [['TSTEP', ['s', 1, None]]]]], redate=0))
     # the corners of the integer selectors, in every run: the last record counted from the end (the window [-1:0] is
     # empty, [-1:] is not), the first counted from the end, and numpy integers on both horizontal axes at once
     for j in range(12):
